@@ -153,12 +153,14 @@ func (i *inspect) addIndexes(t *schema.Table, rows *sql.Rows) error {
 			},
 		}
 		if partial {
-			i := strings.Index(stmt.String, "WHERE")
-			if i == -1 {
+			// The predicate follows the closing paren of the index parts. Note that
+			// the keyword is case-insensitive and may be part of an identifier.
+			m := reIdxWhere.FindStringSubmatch(stmt.String)
+			if m == nil {
 				return fmt.Errorf("missing partial WHERE clause in: %s", stmt.String)
 			}
 			idx.Attrs = append(idx.Attrs, &IndexPredicate{
-				P: strings.TrimSpace(stmt.String[i+5:]),
+				P: strings.TrimSpace(m[1]),
 			})
 		}
 		t.Indexes = append(t.Indexes, idx)
@@ -170,6 +172,8 @@ var (
 	// A regexp to extract index parts.
 	reIdxParts = regexp.MustCompile("(?i)ON\\s+[\"`\\[]*(?:\\w+)[\"`\\]]*\\s*\\((.+?)\\)(\\s*WHERE\\s+.+)?$")
 	reIdxDesc  = regexp.MustCompile("(?i)\\s+DESC\\s*$")
+	// A regexp to extract the predicate of a partial index.
+	reIdxWhere = regexp.MustCompile("(?is)\\)\\s*WHERE\\s+(.+)$")
 )
 
 func (i *inspect) indexInfo(ctx context.Context, t *schema.Table, idx *schema.Index) error {
